@@ -273,6 +273,10 @@ def do_ue(c):
 def do_shift(c):
     RootSequence = _rs()
     D, L, a, b = c["den"], c["size"], c["a"], c["b"]
+    if L > 24:
+        bad = _nzc_mismatch(L, c["nzc"])
+        if bad:
+            return bad
     root = RootSequence(root_index=c["u"], size=L)
     fam = "srs" if D == 8 else "dmrs"
     sa = ue_seq(fam, root, a, None, False).seq_array()
